@@ -6,6 +6,12 @@ FakeSession renders the three SQLAlchemy query shapes the engine uses; everythin
 import copy
 import types
 
+try:
+    from crosshair.tracers import NoTracing
+except Exception:  # pragma: no cover
+    import contextlib
+    NoTracing = contextlib.nullcontext
+
 from kv import rt  # noqa: F401
 
 import sqlalchemy.orm.exc as sa_exc
@@ -174,18 +180,22 @@ def default_policies():
 
 def mk_engine(objs=(), policies=None, identity=("alice", None), version=(1, 2), now=1500000000,
               crypto=None, next_id=None):
-    t = _template()
-    e = copy.copy(t)
-    e._logger = NullLogger()
+    """version must be concrete; everything symbolic is assigned under tracing."""
+    with NoTracing():
+        t = _template()
+        e = copy.copy(t)
+        e._logger = NullLogger()
+        pv = contents.ProtocolVersion(version[0], version[1])
+        e._protocol_version = pv
+        e._attribute_policy = spolicy.AttributePolicy(pv)
+        e._id_placeholder = None
+        if policies is None:
+            policies = default_policies()
     s = FakeSession(objs, next_id=next_id)
     e._data_store_session_factory = s
     e._data_session = s
-    e._operation_policies = policies if policies is not None else default_policies()
+    e._operation_policies = policies
     e._client_identity = list(identity)
-    pv = contents.ProtocolVersion(version[0], version[1])
-    e._protocol_version = pv
-    e._attribute_policy = spolicy.AttributePolicy(pv)
-    e._id_placeholder = None
     if crypto is not None:
         e._cryptography_engine = crypto
     engine_mod.time = FakeTime(now)
@@ -198,39 +208,50 @@ KINDS = ["SymmetricKey", "PublicKey", "PrivateKey", "SplitKey", "X509Certificate
 STATES4 = [enums.State.PRE_ACTIVE, enums.State.ACTIVE, enums.State.DEACTIVATED, enums.State.COMPROMISED]
 
 
-def mk_obj(kind, uid=1, value=None, masks=None, state=None, owner="alice", policy="default",
-           names=None, initial_date=0, sensitive=False):
+def _mk_base(kind, value):
     A = enums.CryptographicAlgorithm
     if kind == "SymmetricKey":
         v = value if value is not None else b"\x01" * 16
-        o = pobjects.SymmetricKey(A.AES, len(v) * 8, v)
-    elif kind == "PublicKey":
-        o = pobjects.PublicKey(A.RSA, 1024, value if value is not None else b"\x30\x82\x01\x0a", enums.KeyFormatType.PKCS_1)
-    elif kind == "PrivateKey":
-        o = pobjects.PrivateKey(A.RSA, 1024, value if value is not None else b"\x30\x82\x02\x5c", enums.KeyFormatType.PKCS_8)
-    elif kind == "SplitKey":
+        return pobjects.SymmetricKey(A.AES, len(v) * 8, v)
+    if kind == "PublicKey":
+        return pobjects.PublicKey(A.RSA, 1024, value if value is not None else b"\x30\x82\x01\x0a",
+                                  enums.KeyFormatType.PKCS_1)
+    if kind == "PrivateKey":
+        return pobjects.PrivateKey(A.RSA, 1024, value if value is not None else b"\x30\x82\x02\x5c",
+                                   enums.KeyFormatType.PKCS_8)
+    if kind == "SplitKey":
         v = value if value is not None else b"\x02" * 16
-        o = pobjects.SplitKey(A.AES, len(v) * 8, v, split_key_parts=3, key_part_identifier=1,
-                              split_key_threshold=2, split_key_method=enums.SplitKeyMethod.XOR)
-    elif kind == "X509Certificate":
-        o = pobjects.X509Certificate(value if value is not None else b"\x30\x82\x03\x12")
-    elif kind == "SecretData":
-        o = pobjects.SecretData(value if value is not None else b"\x53\x65\x63\x72", enums.SecretDataType.PASSWORD)
-    elif kind == "OpaqueObject":
-        o = pobjects.OpaqueObject(value if value is not None else b"\x4f\x70\x61\x71", enums.OpaqueDataType.NONE)
-    else:
-        raise ValueError(kind)
-    o.unique_identifier = uid
+        return pobjects.SplitKey(A.AES, len(v) * 8, v, split_key_parts=3, key_part_identifier=1,
+                                 split_key_threshold=2, split_key_method=enums.SplitKeyMethod.XOR)
+    if kind == "X509Certificate":
+        return pobjects.X509Certificate(value if value is not None else b"\x30\x82\x03\x12")
+    if kind == "SecretData":
+        return pobjects.SecretData(value if value is not None else b"\x53\x65\x63\x72", enums.SecretDataType.PASSWORD)
+    if kind == "OpaqueObject":
+        return pobjects.OpaqueObject(value if value is not None else b"\x4f\x70\x61\x71", enums.OpaqueDataType.NONE)
+    raise ValueError(kind)
+
+
+def mk_obj(kind, uid=1, value=None, masks=None, state=None, owner="alice", policy="default",
+           names=None, initial_date=0, sensitive=False, sym_value=None):
+    """kind, uid, value, masks, state must be concrete (built outside tracing: the SQLAlchemy
+    instrumentation costs ~0.5 s per object under tracing); owner, policy, names, initial_date,
+    sensitive and sym_value (a symbolic replacement for .value) may be symbolic."""
+    with NoTracing():
+        o = _mk_base(kind, value)
+        o.unique_identifier = uid
+        if masks is not None and hasattr(o, "cryptographic_usage_masks"):
+            o.cryptographic_usage_masks = list(masks)
+        if state is not None and hasattr(o, "state"):
+            o.state = state
     o._owner = owner
     o.operation_policy_name = policy
     o.initial_date = initial_date
     o.sensitive = sensitive
     if names is not None:
         o.names = list(names)
-    if masks is not None and hasattr(o, "cryptographic_usage_masks"):
-        o.cryptographic_usage_masks = list(masks)
-    if state is not None and hasattr(o, "state"):
-        o.state = state
+    if sym_value is not None:
+        o.value = sym_value
     return o
 
 
